@@ -286,6 +286,73 @@ def ascending_rule(rep, mod):
         raise AnalysisBroken('memcpy: copy cursors not recognised (%d)' % n)
 
 
+def guarded_skip(f, L, outer, r, off):
+    """the outer search cursor continues at (inner cursor + off) where the inner cursor belongs to a nested skip loop
+    that starts at the outer cursor, advances by one, and continues ONLY while the character at (inner cursor + off)
+    differs from the first character of the pattern (parameter 1, offset 0): every position stepped over was tested
+    and cannot start an occurrence - a legitimate speed-up, unlike resuming at the mismatch position"""
+    p2 = f.insts[r.id]
+    if p2.op != 'phi' or off < 1:
+        return False
+    inner = [l for l in f.loops if l['header'] is p2.block and l is not L and set(l['blocks']) <= set(L['blocks'])]
+    if not inner:
+        return False
+    L2 = inner[0]
+    # starts at the outer cursor, steps by one
+    for (bb, v) in p2.incoming:
+        rr, oo = trace_const(f, v)
+        if f.bmap[bb] in L2['blocks']:
+            if not (rr.k == 'inst' and rr.id == p2.id and oo == 1):
+                return False
+        elif not (rr.k == 'inst' and rr.id == outer.id and oo == 0):
+            return False
+    # continue edges imply  text[inner + off] != pattern[0]
+    edges = []
+    for c in [i for b in L2['blocks'] for i in b.insts if i.op == 'icmp' and i.pred in ('ne', 'eq')]:
+        sides = []
+        for o in c.ops:
+            x = o
+            for _ in range(3):
+                xi = f.inst_of(x)
+                if xi is not None and xi.op in ('sext', 'zext'):
+                    x = xi.ops[0]
+                else:
+                    break
+            xi = f.inst_of(x)
+            if xi is None or xi.op != 'load':
+                sides.append(None)
+                continue
+            root, o_ = trace_const(f, xi.ops[0])
+            if root.k == 'inst' and root.id == p2.id and o_ == off:
+                sides.append('text')
+            elif root.k == 'arg' and root.argno == 1 and o_ == 0:
+                sides.append('first')
+            else:
+                sides.append(None)
+        if sorted(x for x in sides if x) == ['first', 'text']:
+            edges += f.edges_implying(c, c.pred == 'ne')
+    if not edges:
+        return False
+    latch_targets = [b for b in L2['blocks'] if L2['header'] in b.succs and b is not L2['header']] or [L2['header']]
+    # every way around the inner loop uses an edge on which the tested character differs from the first pattern character
+    es = set((a.name, b.name) for a, b in edges)
+    body = [b for b in L2['blocks'] if b is not L2['header']]
+    seen, work = set(), [L2['header']]
+    reach_latch_without = False
+    while work:
+        b = work.pop()
+        if b.name in seen:
+            continue
+        seen.add(b.name)
+        for s_ in b.succs:
+            if s_ not in L2['blocks'] or (b.name, s_.name) in es:
+                continue
+            if s_ is L2['header']:
+                reach_latch_without = True
+            work.append(s_)
+    return not reach_latch_without
+
+
 def cursor_step_rule(rep, mods):
     """R-CURSORSTEP: in the scanning/comparing functions every loop-carried cursor over a string (a pointer phi, or an
     integer phi used as an index into a string) advances by exactly one element per iteration.  For strstr/strcasestr
@@ -320,6 +387,8 @@ def cursor_step_rule(rep, mods):
                     if is_ptr:
                         r, off = trace_const(f, v)
                         st = off if (r.k == 'inst' and r.id == ph.id) else None
+                        if st is None and r.k == 'inst' and guarded_skip(f, L, ph, r, off):
+                            st = 1      # advances past positions that were each tested and cannot start a match
                     else:
                         st = None
                         g = f.inst_of(v)
